@@ -6,7 +6,7 @@ git -C /repo worktree remove --force $wt 2>/dev/null
 git -C /repo worktree add -q --detach $wt HEAD || exit 2
 cp /repo/src/execnet/_version.py $wt/src/execnet/_version.py
 cd $sd
-sed -e "s#/tmp/wt-$id#$wt#g" -e "s#/tmp/wt2-$id#$wt#g" -e "s#/tmp/wt3-$id#$wt#g" -e "s#/tmp/wt4-$id#$wt#g" -e "s#/tmp/wt5-$id#$wt#g" demo.py > demo_v.py
+sed -e "s#/tmp/wt-$id#$wt#g" -e "s#/tmp/wt2-$id#$wt#g" -e "s#/tmp/wt3-$id#$wt#g" -e "s#/tmp/wt4-$id#$wt#g" -e "s#/tmp/wt5-$id#$wt#g" -e "s#/tmp/wt6-$id#$wt#g" demo.py > demo_v.py
 PYTHONPATH=$wt/src timeout 600 /venv/bin/python demo_v.py > demo_clean.log 2>&1; rc_clean=$?
 (git -C $wt apply $sd/patch.diff 2>/dev/null || (cd $wt && patch -p1 -F3 -s --no-backup-if-mismatch < $sd/patch.diff)) || { echo "{\"applies\": false}" > verify.json; git -C /repo worktree remove --force $wt; exit 1; }
 PYTHONPATH=$wt/src timeout 600 /venv/bin/python demo_v.py > demo_mut.log 2>&1; rc_mut=$?
